@@ -91,7 +91,8 @@ def count_lines(A):
     return n[0]
 
 
-def preempt(A, B, k):
+def preempt(A, B, k, site=None):
+    """park A at its k-th executed library line (or, with `site`, at the k-th executed line of that function), run B, resume A"""
     state = {"n": 0, "done": False, "rb": None, "where": None, "changed": []}
 
     def runB():
@@ -101,8 +102,9 @@ def preempt(A, B, k):
         if event == "call":
             return tracer if frame.f_code.co_filename.startswith(LIB) else None
         if event == "line" and not state["done"] and not holds_stdlib_lock(frame):
-            state["n"] += 1
-            if state["n"] == k:
+            if site is None or ("%s:%s" % (os.path.relpath(frame.f_code.co_filename, REPO), frame.f_code.co_name)) == site:
+                state["n"] += 1
+            if state["n"] == k and (site is None or ("%s:%s" % (os.path.relpath(frame.f_code.co_filename, REPO), frame.f_code.co_name)) == site):
                 state["done"] = True
                 state["where"] = "%s:%s" % (os.path.relpath(frame.f_code.co_filename, REPO), frame.f_code.co_name)
                 before = shared_snapshot()
@@ -148,7 +150,7 @@ def main():
     out = []
     nblocked = 0
     for k in ks:
-        ra, rb, where, changed, blocked = preempt(A, B, k)
+        ra, rb, where, changed, blocked = preempt(A, B, k, job.get("site"))
         if blocked:
             nblocked += 1
             continue
